@@ -28,15 +28,11 @@ RECURSIVE Concat(_)
 Concat(parts) == IF parts = <<>> THEN "" ELSE Head(parts) \o Concat(Tail(parts))
 
 (* A text with source parts p1..pn of type t is emitted as n directive     *)
-(* lines whose contents are p1, .., p(n-1), Terminate-completed pn: the    *)
-(* terminator is judged on the whole text but can only extend the last     *)
-(* line.                                                                   *)
+(* lines whose contents are p1, .., p(n-1) and the terminator-completed    *)
+(* pn.  (The parts are separate source lines, so an already written        *)
+(* terminator is looked for at the end of the last part.)                  *)
 ExpectedTextLines(parts, type) ==
-    LET whole == Terminate(Concat(parts), type)
-        n == Len(parts)
-        front == Concat(SubSeq(parts, 1, n - 1))
-    IN [i \in 1..n |-> IF i < n THEN parts[i]
-                       ELSE SubSeq(whole, Len(front) + 1, Len(whole))]
+    [i \in 1..Len(parts) |-> IF i < Len(parts) THEN parts[i] ELSE Terminate(parts[i], type)]
 
 (* ---- lists (movement steps, mart items), run-length encoded ---- *)
 (* An RLE list is a sequence of [name, n] with n >= 1 and no two adjacent  *)
